@@ -23,8 +23,10 @@ Definition Rcol (m : pomdp) (a : nat) : vec := map (fun s => Rw m s a) (seq 0 (n
 Definition Rall (m : pomdp) : vec :=
   flat_map (fun s => map (fun a => Rw m s a) (seq 0 (nA (pm m)))) (seq 0 (nS (pm m))).
 
-(* std::max(0.0001, 1.0 - m.getDiscount()) *)
-Definition denom (m : pomdp) : Q := Qmax (1 # 10000) (1 - gam (pm m)).
+(* repaired (fixes/C03-bound-init-guard.patch): discount < 1 ? 1 - discount : 0.0001.
+   The unrepaired std::max(0.0001, 1.0 - discount) is [denom_guarded] (refuted in ProofsRefute.v). *)
+Definition denom (m : pomdp) : Q := if Qlt_le_dec (gam (pm m)) 1 then 1 - gam (pm m) else 1 # 10000.
+Definition denom_guarded (m : pomdp) : Q := Qmax (1 # 10000) (1 - gam (pm m)).
 
 (* checkDifferentSmall(tolerance_, 0.0) *)
 Definition use_tol (tol : Q) : bool := negb (eqSmall tol 0).
